@@ -10,5 +10,6 @@ CONSTANTS
   Groups = {}
   MaxTok = 2
   FxAll = TRUE
+  Shared = FALSE
 INVARIANTS Refines
 CHECK_DEADLOCK FALSE
